@@ -615,7 +615,9 @@ def _poly_transform_matrix(num_coefficients, original_domain):
     transformation = np.zeros((num_coefficients, num_coefficients))
     skip_offset = np.equal(offset, 0)  # 0 raised to negative powers causes nan
     for i in range(num_coefficients):
-        for j in range(num_coefficients):
+        # only fill the upper triangle; binom(j, i) is 0 for j < i, and the negative powers
+        # of a tiny offset can overflow and produce nan from 0 * inf
+        for j in range(i, num_coefficients):
             if skip_offset:
                 if j == i:
                     transformation[i, j] = binom(j, i) * (scale)**(-j)
